@@ -1017,3 +1017,160 @@ Proof.
   - exists os, w. split; [exact E|]. split; [exact F|]. exists ta. split; [exact Ha|]. apply Hc.
     vm_compute. intuition.
 Qed.
+
+(* ====================================================================== files of different versions *)
+From AV Require Import Tree.MergePureVersions.
+
+Section UnionVersions.
+Variable T : tables.
+Variables LATEST defref : N.
+Variable vs : list N.
+Variable v0 : N.
+
+Lemma VOK_app l fl : VOK LATEST vs (fver_files l) -> In (f_version fl) vs -> VOK LATEST vs (fver_files (l ++ [fl])).
+Proof.
+  intros (H1 & H2) Hv. split; [|exact H2]. intros f v Hf.
+  destruct (Nat.ltb (N.to_nat f) (List.length l)) eqn:E.
+  - apply PeanoNat.Nat.ltb_lt in E. rewrite fver_files_app_old in Hf by exact E. eapply H1; eauto.
+  - apply PeanoNat.Nat.ltb_ge in E. unfold fver_files in Hf. rewrite nth_opt_nth_error in Hf.
+    destruct (nth_error (l ++ [fl]) (N.to_nat f)) as [x|] eqn:En; [|discriminate]. cbn [option_map] in Hf. injection Hf as <-.
+    rewrite nth_error_app2 in En by exact E. destruct (N.to_nat f - List.length l)%nat as [|k]; cbn in En; [injection En as <-; exact Hv|].
+    destruct k; discriminate.
+Qed.
+
+Definition item_okv (S : list (list N * N)) (M : mtree) (g : N) (it : item) : Prop :=
+  (project g M = Some (snd (fst it)) /\ In (Parser.p_version (snd it)) vs) /\
+  StOf T (snd it) (snd (fst it)) /\ NamesIn T S (snd (fst it)) /\ KeysNoDup T (snd (fst it)).
+
+Theorem heap_chain_versions S M m : Good T defref v0 M -> MU T vs v0 (mnames M) M -> In v0 vs -> Functional S ->
+  forall gs items F w ta,
+    Forall2 (item_okv S M) gs items ->
+    ModelTree w m ta (rev F) -> F <> [] -> Rep T F None M (erase ta) -> IdxNames S w m ->
+    NoDup (gs ++ F) -> (forall g, In g (gs ++ F) -> In g (mfiles M)) ->
+    gs = n_range (List.length gs) (N.of_nat (List.length (w_files w))) ->
+    VOK LATEST vs (fver_files (w_files w)) ->
+    exists os w',
+      load_seq T LATEST defref m items w = Val (os, w') /\ Forall2 (fun g o => o = OK g) gs os /\
+      exists ta', ModelTree w' m ta' (rev F ++ gs) /\ Rep T (rev gs ++ F) None M (erase ta') /\ IdxNames S w' m.
+Proof.
+  intros HG HM Hv0 HS. destruct (Good_files T defref v0 M HG) as (Hs & _).
+  induction gs as [|g gs IH]; intros items F w ta Hitems MT HFne HR HI Hnd Hin Hgs HV.
+  - inversion Hitems; subst. exists [], w. cbn [load_seq]. split; [reflexivity|]. split; [constructor|].
+    exists ta. rewrite app_nil_r. cbn [rev app]. auto.
+  - inversion Hitems as [|? [[fname e] st] ? items' ((He & Hv) & Hst & HN & HK) Hitems']; subst. cbn [fst snd] in He, Hv, Hst, HN, HK.
+    cbn [load_seq].
+    assert (Hg : In g (mfiles M)) by (apply Hin; left; reflexivity).
+    cbn [app] in Hnd. inversion Hnd as [|? ? Hnot Hnd']; subst.
+    assert (HgF : ~ In g F) by (intros H; apply Hnot; apply in_or_app; right; exact H).
+    cbn [List.length n_range] in Hgs. injection Hgs as Eg Egs.
+    pose proof (pview_project (depth M) M (le_n _) g e He) as Eview.
+    set (fl := mkFile m fname (Parser.p_version st) (Parser.p_standalone st)) in *.
+    set (fver := fver_files (w_files w ++ [fl])).
+    assert (HV1 : VOK LATEST vs fver) by (apply VOK_app; [exact HV|exact Hv]).
+    assert (Hset : fold_right set_add [] (rev F) = inF F (mfiles M)).
+    { apply files_set_inF; [exact Hs|]. intros f Hf. apply Hin. right. apply in_or_app. right. exact Hf. }
+    pose (P := fun ha' : htree => h_local ha' = h_local (erase ta) /\
+                 forall inh', Rep T (g :: F) inh' M (h_set_local ha' (norm inh' (inF (g :: F) (mfiles M))))).
+    destruct (load_parsed_merge_total T LATEST defref S m fname e st w ta (rev F) P MT) as (w1 & EL & HI1 & Hf1 & ta1 & ha' & MT1 & Ee1 & (Hl & Hr)); auto.
+    { intros E. apply HFne. destruct F; [reflexivity|]. cbn [rev] in E. destruct (rev F); discriminate. }
+    { intros fuel Hfuel. fold fl. fold fver. rewrite Eview, Hset, <- Eg. split.
+      - apply (rep_clean_versions T LATEST defref vs v0 (mnames M) fver HV1 Hv0 fuel M HG HM F g None (erase ta) HgF Hg HR).
+      - destruct (pmerge_rep_versions T LATEST defref vs v0 (mnames M) fver HV1 Hv0 fuel M HG HM F g None (erase ta)) as (a' & Ea' & Hla' & Hra'); auto.
+        { right. rewrite hdepth_erase. exact Hfuel. }
+        exists a'. split; [exact Ea'|]. split; assumption. }
+    rewrite EL.
+    destruct (Rep_shape T F None M (erase ta) HR) as (_ & _ & Hloc & _). cbn [norm] in Hloc.
+    specialize (Hr None). cbn [norm] in Hr. rewrite (inF_cons_in g F (mfiles M) Hs Hg HgF) in Hr.
+    assert (HR1 : Rep T (g :: F) None M (erase ta1)).
+    { rewrite Ee1, Hl, Hloc, <- Eg. exact Hr. }
+    fold fl in Hf1.
+    destruct (IH items' (g :: F) w1 ta1) as (os1 & w2 & EL2 & F2 & ta2 & MT2 & HR2 & HI2); auto.
+    + cbn [rev]. rewrite <- Eg in MT1. exact MT1.
+    + discriminate.
+    + apply NoDup_app_swap_cons. exact Hnd.
+    + intros g0 H0. apply Hin. apply in_app_or in H0 as [H0|[<-|H0]]; [right; apply in_or_app; left; exact H0|left; reflexivity|].
+      right. apply in_or_app. right. exact H0.
+    + rewrite Hf1, app_length. cbn [List.length]. rewrite Egs at 1. f_equal. lia.
+    + rewrite Hf1. exact HV1.
+    + rewrite EL2. exists (OK (N.of_nat (List.length (w_files w))) :: os1), w2. split; [reflexivity|].
+      split; [constructor; [rewrite Eg; reflexivity|exact F2]|].
+      exists ta2. cbn [rev] in MT2. rewrite <- app_assoc in MT2. cbn [app] in MT2. split; [exact MT2|].
+      split; [|exact HI2]. cbn [rev]. rewrite <- app_assoc. cbn [app]. exact HR2.
+Qed.
+
+
+(* C09 on the heap model for files of DIFFERENT versions: the versions of all files are in vs, and every element of the
+   master has the same type and split behaviour in all versions of vs (uniformb, a boolean on the master) *)
+Theorem heap_union_versions M m x w0 n items :
+  Good T defref v0 M -> uniformb T vs v0 M = true -> In v0 vs ->
+  nth_opt (w_models w0) (N.to_nat m) = Some x -> m_files x = [] -> m_idents x = [] ->
+  VOK LATEST vs (fver_files (w_files w0)) ->
+  let gs := n_range (S n) (N.of_nat (List.length (w_files w0))) in
+  Forall2 (fun g it => (project g M = Some (snd (fst it)) /\ In (Parser.p_version (snd it)) vs) /\ StOf T (snd it) (snd (fst it))) gs items ->
+  (forall g, In g gs -> In g (mfiles M)) -> PathsOK T M gs ->
+  exists os w,
+    load_seq T LATEST defref m items w0 = Val (os, w) /\ Forall2 (fun g o => o = OK g) gs os /\
+    exists ta, ModelTree w m ta gs /\ abs_model w m = Some (erase ta) /\
+               Rep T (rev gs) None M (erase ta) /\
+               (covers gs M -> hperm (erase ta) (expected None M)) /\
+               (forall f, In f gs -> hperm (hproj f (erase ta)) (pview f M)).
+Proof.
+  intros HG HU0 Hv0 Hx Hfx Hix HV gs Hitems Hin (HS & HKeys).
+  pose proof (uniformb_sound T vs v0 M HU0) as HM.
+  set (SN := all_names T M gs) in *.
+  assert (Haux : forall gs0 its, incl gs0 gs ->
+             Forall2 (fun g it => (project g M = Some (snd (fst it)) /\ In (Parser.p_version (snd it)) vs) /\ StOf T (snd it) (snd (fst it))) gs0 its ->
+             Forall2 (item_okv SN M) gs0 its).
+  { intros gs0 its Hsub HF. induction HF as [|g it gs1 its1 ((He & Hv) & Hst) HF IH]; [constructor|]. constructor.
+    - split; [split; assumption|]. split; [exact Hst|]. split.
+      + apply (names_in_all T M gs g _); [apply Hsub; left; reflexivity|exact He].
+      + apply (HKeys g _); [apply Hsub; left; reflexivity|exact He].
+    - apply IH. intros y Hy. apply Hsub. right. exact Hy. }
+  pose proof (Haux gs items (incl_refl _) Hitems) as Hitems'. clear Haux.
+  unfold gs in *. cbn [n_range] in *.
+  set (g0 := N.of_nat (List.length (w_files w0))) in *. set (gr := n_range n (g0 + 1)) in *.
+  inversion Hitems' as [|? [[fname e] st] ? items' ((He & Hv) & Hst & HN & HK) Hitems'']; subst. cbn [fst snd] in He, Hv, Hst, HN, HK.
+  cbn [load_seq].
+  assert (Hg0 : In g0 (mfiles M)) by (apply Hin; left; reflexivity).
+  assert (HI0 : IdxNames SN w0 m).
+  { exists x. split; [exact Hx|]. intros key e0 Hg. rewrite Hix in Hg. discriminate Hg. }
+  destruct (load_parsed_first_total T LATEST defref SN m fname e st w0 x Hx Hfx HI0 HS Hst HN HK)
+    as (w1 & EL & HI1 & Hf1 & ta1 & MT1 & Ee1).
+  fold g0 in EL, MT1, Ee1. rewrite EL.
+  pose proof (pview_project (depth M) M (le_n _) g0 e He) as Eview. rewrite Eview in Ee1.
+  assert (HR1 : Rep T [g0] None M (erase ta1)).
+  { rewrite Ee1. apply (first_view_rep T defref v0 M g0 HG Hg0). }
+  assert (Hnd : NoDup (gr ++ [g0])).
+  { eapply Permutation_NoDup; [apply Permutation_app_comm|]. cbn [app]. apply (n_range_nodup (S n) g0). }
+  destruct (heap_chain_versions SN M m HG HM Hv0 HS gr items' [g0] w1 ta1) as (os1 & w2 & EL2 & F2 & ta2 & MT2 & HR2 & _); auto.
+  - discriminate.
+  - intros g Hg. apply Hin. apply in_app_or in Hg as [Hg|[<-|[]]]; [right; exact Hg|left; reflexivity].
+  - unfold gr at 1. rewrite Hf1, app_length. cbn [List.length]. f_equal.
+    + unfold gr. clear. generalize (g0 + 1). induction n as [|k IHk]; intros from; cbn [n_range List.length]; auto.
+    + fold g0. lia.
+  - rewrite Hf1. apply VOK_app; [exact HV|exact Hv].
+  - rewrite EL2. exists (OK g0 :: os1), w2. split; [reflexivity|]. split; [constructor; [reflexivity|exact F2]|].
+    cbn [rev app] in MT2. exists ta2. split; [exact MT2|]. split; [eapply ModelTree_abs_model; exact MT2|].
+    assert (HR3 : Rep T (rev (g0 :: gr)) None M (erase ta2)) by (cbn [rev]; exact HR2).
+    split; [exact HR3|]. split.
+    + intros Hc. apply (Rep_expected T defref v0 (depth M) M (le_n _) HG (rev (g0 :: gr)) None (erase ta2)); [|intros p [=]|exact HR3].
+      apply (covers_incl (depth M) M (le_n _) (g0 :: gr)); [|exact Hc]. intros y Hy. apply in_rev in Hy. exact Hy.
+    + intros f Hf. apply (Rep_project T defref v0 (depth M) M (le_n _) HG (rev (g0 :: gr)) None (erase ta2) f); [|apply Hin; exact Hf|exact HR3].
+      exact (proj1 (in_rev _ _) Hf).
+Qed.
+
+End UnionVersions.
+
+(* the tiny master is uniform over the versions 1 and 2 *)
+Example tiny_uniform : uniformb TinyM.tiny [1; 2] 2 TinyM.master = true.
+Proof. vm_compute. reflexivity. Qed.
+
+(* ... and the two views, loaded as files of versions 1 and 2, merge to the master (by computation) *)
+Example tiny_mixed_versions :
+  match load_seq TinyM.tiny TinyM.LATEST TinyM.DEFREF 0
+          [(BS "f0", TinyM.file0, pstate_of TinyM.tiny 1 TinyM.file0); (BS "f1", TinyM.file1, pstate_of TinyM.tiny 2 TinyM.file1)]
+          TinyM.new_world with
+  | Val (os, w) => (os, abs_model w 0)
+  | _ => ([], None)
+  end = ([OK 0; OK 1], Some (expected None TinyM.master)).
+Proof. vm_compute. reflexivity. Qed.
